@@ -251,6 +251,22 @@ CHECKS.append({
             "them; a violation there is reported with the failing synthetic data set as replay.",
 })
 
+CHECKS.append({
+    "property_id": "C15",
+    "design_ref": "DESIGN.md 5 (C15)",
+    "technique": "Coq proof (real analysis for the logistic squashing and convex combinations; string lemmas for the relabelling incl. an explicit refutation of "
+                 "unconditional injectivity) over the multi-band model regenerated from multiband.py/priors.py + vm_compute/interval correspondence with traces "
+                 "of real FitMultiBandPoly/BSpline models; implementation-side perturbation oracle",
+    "text": "Nine theorems (Props/C15.v): a ranged linked value lies strictly inside its range for EVERY coefficient vector and wavelength; polyval is Horner; "
+            "a spline value is a convex combination of weights kept in [low,hi]; default ranges go to n*, ellip*, theta only (single and p_<i> names); "
+            "relabelling is name++'_'++band, injective within a band, injective overall for underscore-free and default band names - and NOT in general "
+            "(proved counterexample r_eff/1_g vs r_eff_1/g); each band's loss gets its own data/rms/mask, constants are one shared site, unlinked "
+            "parameters use the band's prior, linked ones are deterministic.",
+    "note": "Trusted: Coq kernel, Interval, Reals axioms; translator unit Multiband (pattern extraction, fail-closed); jnp.polyval/jnp.dot/scipy design "
+            "matrices as modelled (matrix rows checked inside Coq each run); float32 saturation of the logistic via the oracle only; non-empty old suffix "
+            "in update_prior_suffix is outside what the multi-band fitter supports and outside the theorems.",
+})
+
 _PENDING = "check not built yet in this session (build order in DESIGN.md section 9); will be claimed once its Coq model, theorems and tie exist"
 NOT_APPLICABLE = [
     {"property_id": "C%02d" % i, "reason": _PENDING}
